@@ -229,15 +229,18 @@ func (op LinearQuantizer) Simulate(vm *VM, instr string) error {
 	sn := float64(op.max)
 	s := sd / sn
 
-	switch *op.pipeline {
+	// The pipeline phase is part of the state of the simulated processor, not of the opcode
+	phaseKey := op.lqName + "_pipeline"
+	phase, _ := vm.Extra_states[phaseKey].(uint8)
+	switch phase {
 	case LQPUT:
 		if op.opType == LQMULT || op.opType == LQDIV {
-			*op.pipeline = LQCORR
+			vm.Extra_states[phaseKey] = LQCORR
 		} else {
-			*op.pipeline = LQGET
+			vm.Extra_states[phaseKey] = LQGET
 		}
 	case LQCORR:
-		*op.pipeline = LQGET
+		vm.Extra_states[phaseKey] = LQGET
 	case LQGET:
 		switch op.opType {
 		case LQADD:
@@ -278,7 +281,7 @@ func (op LinearQuantizer) Simulate(vm *VM, instr string) error {
 			}
 		}
 		vm.Pc = vm.Pc + 1
-		*op.pipeline = LQPUT
+		vm.Extra_states[phaseKey] = LQPUT
 	}
 	return nil
 }
